@@ -12,6 +12,7 @@ mod ops;
 mod oracle;
 mod pool;
 mod scenario;
+mod selftest;
 mod world;
 
 use engine::Engine;
@@ -38,6 +39,8 @@ fn main() {
         "c21" => c21::run(&engine, args.get(1).map(|s| s.as_str()).unwrap_or("quick"), seed),
         "c22" => c22::run(&engine, args.get(1).map(|s| s.as_str()).unwrap_or("quick"), seed),
         "c23" => c23::run(&engine, args.get(1).map(|s| s.as_str()).unwrap_or("quick"), seed),
+        "selftest-determinism" => selftest::determinism(&engine, seed, args.get(1).and_then(|s| s.parse().ok()).unwrap_or(120)),
+        "audit" => selftest::audit(&engine),
         "replay" => engine::replay_file(&engine, args.get(1).map(|s| s.as_str()).unwrap_or_else(|| usage())),
         _ => usage(),
     };
